@@ -84,7 +84,9 @@ def check_trial(prog: Program, sc, rec) -> list[dict]:
         ci = m.cls_of[obj]
         v = m.heap[obj].get("labels")
         if not (isinstance(v, V) and v.term and v.term[0] == "labels"):
-            viol("B1", f"{ci.name}.labels", ci.where, f"labels of {ci.name} are no longer a tracked per-atom array: {v!r}", "labels")
+            # the model lost track of the array (an idiom it does not follow): no verdict may rest on that
+            out.append({"status": "unsupported", "rule": "B1", "construct": f"{ci.name}.labels", "where": ci.where,
+                        "detail": f"labels of {ci.name} are built by an expression the label model does not follow ({v!r})", "witness": "", "stmt": "labels"})
             continue
         llen = length(v.term[1])
         if llen == alen:
